@@ -408,6 +408,9 @@ class C09(Property):
                 segs.append(rng.choice(["a", "b", "c"]))
             elif m < 0.29 and segs:
                 segs.pop()
+            elif m < 0.34 and segs:      # segments are compared byte for byte: another case is another segment
+                i = rng.randrange(len(segs))
+                segs[i] = segs[i].swapcase()
             # decorate with things path.Clean removes
             out = []
             for s in segs:
